@@ -659,6 +659,65 @@ func run(c *mon.Ctx) {
 	c.Assume("a fixed-size field (PCR, OPCR, splice_countdown) that was just made present has no 'last value set': the model adopts the bytes the library left there; private data / extension are created empty; the source of SetAdaptationField is a well-formed adaptation field of length >= 1")
 	c.Floor("refused_and_unchanged", 1000)
 	c.Floor("capacity_exact_success", 1000)
+	// the setters edit the packet they are called on, whoever else is editing another packet at that moment
+	c.Floor("concurrent.calls", 20000)
+	c.Stream("concurrent-editors", c.N(3, 150), func(i int, r *gen.Rand) {
+		c.Concurrent("adaptation field setters on packets of their own", 8, 1500, r, func(q *gen.Rand) string {
+			L := 40 + q.Intn(140)
+			m := ref.GenTSPacket(q, 3, L)
+			p := packet.Packet(m.Bytes())
+			af, err := p.AdaptationField()
+			if err != nil {
+				return "AdaptationField() failed on a packet with the adaptation field flag: " + err.Error()
+			}
+			next := m.Clone()
+			a := &next.AF
+			room := func(cur *[]byte) int {
+				used := a.Size()
+				if cur != nil {
+					used -= 1 + len(*cur)
+				}
+				return L - used - 1
+			}
+			var e1, e2 error
+			if a.TPD == nil {
+				v := []byte{}
+				a.TPD = &v
+				if a.Size() > L {
+					return ""
+				}
+				e1 = af.SetHasTransportPrivateData(true)
+			}
+			if k := room(a.TPD); k >= 1 {
+				v := q.Bytes(1 + q.Intn(k))
+				a.TPD = &v
+				e2 = af.SetTransportPrivateData(v)
+			}
+			if e1 != nil || e2 != nil {
+				return fmt.Sprintf("a call whose result fits failed: %v %v", e1, e2)
+			}
+			if a.Ext != nil {
+				if k := room(a.Ext); k >= 0 {
+					v := q.Bytes(q.Intn(k + 1))
+					a.Ext = &v
+					if err := af.SetAdaptationFieldExtension(v); err != nil {
+						return "SetAdaptationFieldExtension of a value that fits failed: " + err.Error()
+					}
+				}
+			}
+			a.DI = !a.DI
+			af.SetDiscontinuity(a.DI)
+			if want := next.Bytes(); p != packet.Packet(want) {
+				d := ref.FirstDiff(p[:], want[:])
+				return fmt.Sprintf("after setting private data / extension / discontinuity byte %d is %#02x, the ISO serialisation of the values set has %#02x", d, p[d], want[d])
+			}
+			if g, err := adaptationfield.TransportPrivateData(&p); err != nil || !bytes.Equal(g, *a.TPD) {
+				return fmt.Sprintf("the private data reads back %x (%v), set %x", g, err, *a.TPD)
+			}
+			return ""
+		})
+		c.Class("concurrent-editors")
+	})
 	c.Stream("histories", c.N(30000, 20000000), func(i int, r *gen.Rand) {
 		x := newRunner(c, initialState(r))
 		n := 1 + r.Intn(25)
